@@ -244,7 +244,7 @@ func c15One(l *LabCtx) {
 func init() {
 	RegisterLab(&LabDef{
 		ID:      "C15",
-		Inputs:  map[string]int{"quick": 3000, "thorough": 60000},
+		Inputs:  map[string]int{"quick": 6000, "thorough": 80000},
 		Batches: map[string]int{"quick": 8, "thorough": 16},
 		One:     c15One,
 	})
